@@ -138,6 +138,9 @@ func report(l *Loaded, cfg *Config, spec *Spec, obs []*Obligation, results map[s
 		if len(want) == 0 {
 			want = reachLabels(o.fn)
 		}
+		if o.Expect == "violated" {
+			want = nil
+		}
 		for _, w := range want {
 			if !r.Reached[w] {
 				s.Missing = append(s.Missing, w)
@@ -165,6 +168,38 @@ func report(l *Loaded, cfg *Config, spec *Spec, obs []*Obligation, results map[s
 			status = "inconclusive"
 			s.Inconclusive = append(s.Inconclusive, "vacuous: reach labels not hit: "+strings.Join(s.Missing, ","))
 			fmt.Printf("INCONCLUSIVE property=%s obligation=%s reason=vacuous, labels not reached: %s\n", prop, o.Name, strings.Join(s.Missing, ","))
+		}
+		if o.Expect == "violated" {
+			// sensitivity twin: it must be violated, and natively too
+			okTwin := false
+			for _, f := range r.Failures {
+				if f.Model == nil {
+					continue
+				}
+				replayN++
+				path := writeReplay(prop, o, f, replayN)
+				if cfg.NoReplay {
+					okTwin = true
+					continue
+				}
+				if res, _, err := nativeReplay(l, path); err == nil && reproduced(f, res) {
+					okTwin = true
+				}
+			}
+			if okTwin {
+				s.Status = "discharged (twin violated as required)"
+				discharged++
+			} else {
+				s.Status = "inconclusive"
+				inconclusives++
+				fmt.Printf("INCONCLUSIVE property=%s obligation=%s reason=the sensitivity twin was NOT reported violated: the engine has lost sensitivity\n", prop, o.Name)
+			}
+			sums = append(sums, s)
+			totalQ += r.Solver.Queries
+			totalPaths += r.Paths
+			nontrivial += r.Paths
+			fmt.Printf("  %-28s %-13s items=%d paths=%d\n", o.Name, s.Status, r.Items, r.Paths)
+			continue
 		}
 		for _, f := range r.Failures {
 			desc := fmt.Sprintf("%s: %s at %s", f.Kind, f.Msg, f.Pos)
